@@ -83,6 +83,35 @@ func c18Scenario(cs c18Case) *explore.Scenario {
 	return sc
 }
 
+// c18ClientContacts runs a real dcat over the given server list with every
+// server in-process and returns how many times each server delivered the file.
+func c18ClientContacts(list []string, path string) (map[string]int, string) {
+	got := map[string]int{}
+	var errs string
+	res := vrt.Run(vrt.Config{MaxSteps: 5000000, Horizon: 10 * time.Minute}, func() {
+		args := DefaultArgs()
+		args.NoColor = true
+		args.Quiet = true
+		args.LogLevel = "error"
+		args.What = path
+		args.ServersStr = strings.Join(list, ",")
+		r := RunClientBody(ClientOpts{Kind: "cat", Args: args, ForceServerless: true})
+		if r.Err != "" || r.Status != 0 {
+			errs = fmt.Sprintf("client error %q status %d", r.Err, r.Status)
+		}
+		for _, l := range strings.Split(r.Stdout, "\n") {
+			f := strings.SplitN(l, "|", 6)
+			if len(f) == 6 && f[0] == "REMOTE" {
+				got[f[1]]++
+			}
+		}
+	})
+	if res.Fail != nil {
+		errs = res.Fail.Error()
+	}
+	return got, errs
+}
+
 func c18Lists(maxLen int) (out [][]string) {
 	alpha := []string{"a", "b", "c:2222", "a.dom"}
 	var rec func(cur []string)
@@ -107,7 +136,7 @@ func init() {
 		Level: "model_checking",
 		Rule: "all server lists of length 1..5 (quick) / 1..6 (thorough) over {a, b, c:2222, a.dom} (so all duplicate patterns), given as comma list, as server file (newline-terminated, without final newline, CRLF) and through a discovery " +
 			"module with the filters none, /a/, /^c/, /x/, /./; every random number the shuffle draws is an environment choice and ALL answer sequences are explored " +
-			"(complete tree, no bound); oracle: returned multiset == distinct entries matching the filter; distinct = distinct (case, returned order) pairs",
+			"(complete tree, no bound); oracle: returned multiset == distinct entries matching the filter; plus, end to end, a real dcat over every list of <=3 entries (every entry an in-process server): each distinct server delivers the file exactly once; distinct = distinct (case, returned order) pairs",
 		Assumptions: []string{"math/rand is replaced by an explorer-owned choice; regexp is trusted"},
 		Run: func(c *Ctx) {
 			n := 5
@@ -141,6 +170,28 @@ func init() {
 					if len(l) == 3 && cs.Source == "module" && cs.Filter == "/a/" {
 						c.Sample(cs)
 					}
+				}
+			}
+			// end to end: the set of servers a real client actually contacts (host names without port;
+			// the serverless connector gives every entry its own in-process server named after the entry)
+			probe := WriteScratch("c18/probe.log", "only line\n")
+			for _, l := range c18Lists(3) {
+				if !c.Mine() {
+					continue
+				}
+				var hosts []string
+				for _, e := range l {
+					hosts = append(hosts, strings.NewReplacer(":2222", "", ".dom", "").Replace(e)+"x")
+				}
+				want := map[string]int{}
+				for _, h := range hosts {
+					want[h] = 1
+				}
+				got, errs := c18ClientContacts(hosts, probe)
+				c.Count("e2e|" + strings.Join(hosts, ","))
+				if errs != "" || fmt.Sprint(got) != fmt.Sprint(want) {
+					c.Violation("client-contacts-wrong-server-set", fmt.Sprintf("dcat --servers %s: servers that delivered the file (with multiplicity) %v, want each distinct entry exactly once %v %s",
+						strings.Join(hosts, ","), got, want, errs), hosts)
 				}
 			}
 		},
